@@ -1,6 +1,7 @@
 import ScrapliModel.Lemmas.Timeout
 import ScrapliModel.Props.C01
 import ScrapliModel.Generated.Consts
+import ScrapliModel.Generated.C05RpcSites
 import ScrapliModel.Generated.BodiesTimeout
 /-!
 # C05 — Every blocking operation honours its timeout
@@ -158,6 +159,44 @@ theorem helloP_single (cfg : Cfg) (T : Nat) : SingleRestart (helloP cfg T) T :=
 theorem rpcP_single (frame : List Bytes) (P : Bytes → Bool) (T : Nat) : SingleRestart (rpcP frame P T) T :=
   ⟨_, _, _, rfl, fun _ => NoRestart.ret _⟩
 
+/-- EVERY NETCONF operation kind (any framed message, any reply predicate), whatever the source of
+    its options: one timer, started when the request is written, of the length its options source
+    yields through `GetTimeout` -/
+theorem rpcOpP_single (frame : List Bytes) (P : Bytes → Bool) (ops maxT dflt : Int) (src : OptSource) :
+    SingleRestart (rpcOpP frame P ops maxT dflt src) (rpcTimeout ops maxT dflt src).toNat :=
+  rpcP_single frame P _
+
+/-- what that length is, by options source (with the `-1` sentinel as package default): options
+    from `NewOperation` give the connection-wide timeout, or the caller's own when one was passed;
+    a struct literal without a `Timeout` field gives the MAXIMUM — the operation would wait a day -/
+theorem rpcTimeout_by_source (ops maxT t : Int) (h1 : t ≠ -1) (h0 : t ≠ 0) :
+    rpcTimeout ops maxT (-1) (.newOperation none) = ops ∧
+    rpcTimeout ops maxT (-1) (.newOperation (some t)) = t ∧
+    rpcTimeout ops maxT (-1) (.literal 0) = maxT := by
+  unfold rpcTimeout optTimeout getTimeout
+  simp [h1, h0]
+
+/-- The full obligation on the regenerated call-site table (`Generated/C05RpcSites.lean`, go/ast
+    over driver/netconf): EVERY `sendRPC` call gets options built by `NewOperation`, and
+    `NewOperation` initialises `Timeout` with `defaultTimeout`. It does not hold on the current
+    tree: `EstablishPeriodicSubscription` passes `&OperationOptions{}` (known finding C05-F16). -/
+def sendRPC_sites_all_from_NewOperation : Prop :=
+  (Gen.C05Rpc.sites.all fun s => s.viaNewOperation) = true ∧
+  Gen.C05Rpc.newOperationSetsDefaultTimeout = true
+
+/-- the part that holds (and must keep holding): every `sendRPC` call site other than the recorded
+    one builds its options with `NewOperation`, whose `Timeout` starts as `defaultTimeout`, which
+    is the `-1` sentinel (see `default_perOp_is_connection_wide`); the table is the full set of
+    public operations. A new operation, or an existing one, that hands `sendRPC` a struct literal
+    breaks this obligation. -/
+theorem sendRPC_sites_from_NewOperation_partial :
+    (Gen.C05Rpc.sites.all fun s => s.viaNewOperation || s.func == "EstablishPeriodicSubscription") = true ∧
+    Gen.C05Rpc.newOperationSetsDefaultTimeout = true ∧
+    Gen.Netconf.defaultTimeout = -1 ∧
+    (["Commit", "Discard", "CopyConfig", "DeleteConfig", "EditConfig", "Get", "GetConfig", "Lock", "Unlock",
+      "RPC", "Validate"].all fun f => Gen.C05Rpc.sites.any fun s => s.func == f && s.viaNewOperation) = true := by
+  decide
+
 theorem interactiveP_noRestart (cfg : Cfg) (complete : List (Bytes → Bool)) :
     ∀ (es : List Event) (b : Bytes), NoRestart (interactiveP cfg complete es none b) := by
   intro es
@@ -241,6 +280,28 @@ theorem single_phase_stalls {α : Type} (ws : List Bytes) (P : Bytes → Bool) (
   apply Stalls.here
   intro j
   simpa using noPrefix_of_exactAt P S hE n hn j
+
+/-- hence every NETCONF operation whose options come from `NewOperation` without a per-operation
+    timeout, against a device that goes silent before the reply is complete — after byte `n` of a
+    reply `S`, for every `n`, every segmentation and timing: the timeout error at a model time
+    within one tick of the connection-wide `TimeoutOps` (the regenerated `defaultTimeout` is used,
+    not assumed) -/
+theorem rpc_any_kind_stall_timeout (d : Nat) (hd : 0 < d) (frame : List Bytes) (P : Bytes → Bool)
+    (ops : Nat) (maxT : Int) (S : Bytes) (hE : ExactAt P S) (n : Nat) (hn : n < S.length)
+    (st : St) (hp : bytesOf st.pend = []) (hs : st.rs.map bytesOf = [S.take n]) :
+    let prog := rpcOpP frame P ops maxT Gen.Netconf.defaultTimeout (.newOperation none)
+    toPublic .rpc (run d prog st).1 = .error .timeout ∧
+    st.now + ops ≤ (run d prog st).2.now ∧ (run d prog st).2.now < st.now + ops + d := by
+  intro prog
+  have hT : (rpcTimeout ops maxT Gen.Netconf.defaultTimeout (.newOperation none)).toNat = ops := by
+    simp [rpcTimeout, optTimeout, getTimeout, Gen.Netconf.defaultTimeout]
+  have hsingle : SingleRestart prog ops := by
+    have := rpcOpP_single frame P ops maxT Gen.Netconf.defaultTimeout (.newOperation none)
+    rwa [hT] at this
+  obtain ⟨a, b, c⟩ := stall_yields_timeout d hd prog ops hsingle [] [S.take n]
+    (single_phase_stalls frame P _ _ S hE n hn) st hp hs
+  rw [a]
+  exact ⟨rfl, b, c⟩
 
 /-- `SendInputB` against a device that echoes `Se` and answers `Sr` (the echo predicate first holds
     exactly at the end of `Se`, the prompt predicate exactly at the end of `Sr`) and goes silent
